@@ -66,6 +66,10 @@ def _atom(node: ast.AST, env):
     k = norm(node)
     if k in env:
         return env[k]
+    if isinstance(node, ast.Call) and dotted_name(node.func) in ('min', 'max') and len(node.args) == 1:
+        inner = _atom(node.args[0], env)
+        if isinstance(inner, (set, list)):
+            return (min if dotted_name(node.func) == 'min' else max)(inner)
     raise AnalysisError(f'range test mentions {k!r}, which is not the candidate value or a declared bound')
 
 
